@@ -1266,6 +1266,10 @@ func (fr *Frame) typeAssert(st *State, x *ssa.TypeAssert) {
 		}
 		if e, isEmpty := at.Underlying().(*types.Interface); isEmpty && e.NumMethods() == 0 {
 			ok = "(not (= " + v.C[0] + " 0))"
+		} else if _, fromI := x.X.Type().Underlying().(*types.Interface); fromI && types.Implements(x.X.Type(), at.Underlying().(*types.Interface)) {
+			// the static (interface) type of the operand already has every method of the asserted interface: the
+			// assertion succeeds exactly when the operand is not nil
+			ok = "(not (= " + v.C[0] + " 0))"
 		} else {
 			ok = "(and (not (= " + v.C[0] + " 0)) (" + pn + " " + v.C[0] + "))"
 		}
